@@ -152,6 +152,12 @@ def macro_grammars(seed=0):
         NT("S", [A(Mac("Two", (Nt("Item"),))), A("b", Mac("Two", (Tm("a"),)))], pub=True),
     ], tags=["macro forwarding its parameter", "Sep<T,X> with two separators", "literal vs nonterminal argument"]))
     gs[-1].min_n = 6
+    # a macro parameter spelled like a bare terminal of the extern enum: the parameter shadows the terminal inside the macro
+    bt = [Term("Num", "KNum", None, [], True), Term("Comma", "KComma", None, [], True), Term("Semi", "KSemi", None, [], True)] + terms("( )")
+    gs.append(Grammar("mac_shadow", bt, [
+        NT("SepList", [Alt([T]), Alt([Mac("SepList", (T, Nt("Comma"))), Nt("Comma"), T])], params=["T", "Comma"], ty="()"),
+        NT("S", [A("(", Mac("SepList", (Nt("Num"), Nt("Semi"))), ")"), A(Mac("SepList", (Nt("Num"), Nt("Comma"))))], pub=True),
+    ], tags=["macro parameter named like a bare terminal", "scope: parameter shadows global"]))
     return gs
 
 
